@@ -55,6 +55,7 @@ type vnCtx struct {
 	message Hash
 	signer  int
 	class   string // equality class of the aggregate challenge ("bad": cannot be computed)
+	kind    int    // how the request was derived (varyKind; -1: the base request)
 	chal    *edwards25519.Scalar
 }
 
@@ -93,6 +94,7 @@ type vnTemplate struct {
 	pubs    []Key
 	commits map[int]Key
 	message Hash
+	kind    int
 }
 
 func (t *vnTemplate) build() *vnCtx {
@@ -110,11 +112,11 @@ func (t *vnTemplate) build() *vnCtx {
 	if err != nil {
 		panic(err)
 	}
-	return &vnCtx{sig: sig, publics: pubs, message: t.message, signer: t.signer}
+	return &vnCtx{sig: sig, publics: pubs, message: t.message, signer: t.signer, kind: t.kind}
 }
 
 func (t *vnTemplate) clone() *vnTemplate {
-	c := &vnTemplate{n: t.n, signer: t.signer, message: t.message, commits: map[int]Key{}}
+	c := &vnTemplate{n: t.n, signer: t.signer, message: t.message, commits: map[int]Key{}, kind: t.kind}
 	c.pubs = append(c.pubs, t.pubs...)
 	for i, k := range t.commits {
 		c.commits[i] = k
@@ -122,10 +124,13 @@ func (t *vnTemplate) clone() *vnTemplate {
 	return c
 }
 
-func (w *vnWorld) template(nc *vnNonce) *vnTemplate {
+func (w *vnWorld) template(nc *vnNonce, rich bool) *vnTemplate {
 	r := w.r
 	n := 1 + r.Intn(6)
-	t := &vnTemplate{n: n, signer: r.Intn(n), commits: map[int]Key{}}
+	if rich && n < 3 {
+		n = 3 + r.Intn(4)
+	}
+	t := &vnTemplate{n: n, signer: r.Intn(n), commits: map[int]Key{}, kind: -1}
 	pub := nc.private.Public()
 	for i := 0; i < n; i++ {
 		if i == t.signer {
@@ -140,47 +145,91 @@ func (w *vnWorld) template(nc *vnNonce) *vnTemplate {
 			t.commits[i] = vnKey(r).Public()
 		}
 	}
+	if rich { // at least one co-signer that committed and one peer that did not
+		var o []int
+		for i := 0; i < n; i++ {
+			if i != t.signer {
+				o = append(o, i)
+			}
+		}
+		t.commits[o[0]] = vnKey(r).Public()
+		delete(t.commits, o[1])
+	}
 	r.Read(t.message[:])
 	return t
 }
 
-// a template whose aggregate challenge differs from t's in one randomly chosen ingredient
-func (w *vnWorld) vary(t *vnTemplate) *vnTemplate {
+// a template that differs from t in one randomly chosen ingredient. Kinds:
+//   0 message; 1 a peer's commitment (changes R, maybe the mask); 2 commitment and key of a peer;
+//   3 the mask; 4 ONLY the public key of a committed co-signer (same commitments, mask, message:
+//   the aggregate key A changes, so the challenge H(R||A||m) is a different one);
+//   5 ONLY the public key of a peer that did not commit (A unchanged: the SAME challenge reached
+//   through a different key vector -- an identical retry);
+//   6 a committed and an uncommitted peer exchange their public keys (A changes, nothing else).
+func (w *vnWorld) varyKind(t *vnTemplate, k int) *vnTemplate {
 	r := w.r
 	c := t.clone()
-	others := []int{}
+	var others, masked, unmasked []int
 	for i := 0; i < c.n; i++ {
-		if i != c.signer {
-			others = append(others, i)
+		if i == c.signer {
+			continue
+		}
+		others = append(others, i)
+		if _, ok := c.commits[i]; ok {
+			masked = append(masked, i)
+		} else {
+			unmasked = append(unmasked, i)
 		}
 	}
-	k := r.Intn(4)
+	if (k == 4 && len(masked) == 0) || (k == 5 && len(unmasked) == 0) || (k == 6 && (len(masked) == 0 || len(unmasked) == 0)) {
+		k = 4
+		if len(masked) == 0 {
+			k = 0
+		}
+	}
 	if len(others) == 0 {
 		k = 0
 	}
+	c.kind = k
 	switch k {
-	case 0: // another message
+	case 0:
 		c.message[r.Intn(32)] ^= byte(1 << uint(r.Intn(8)))
-	case 1: // another commitment of a peer (or a peer joining / leaving the commitment set)
+	case 1:
 		i := others[r.Intn(len(others))]
 		if _, ok := c.commits[i]; ok && r.Intn(2) == 0 {
 			delete(c.commits, i)
 		} else {
 			c.commits[i] = vnKey(r).Public()
 		}
-	case 2: // another key vector: a committed peer's public key changes
+	case 2:
 		i := others[r.Intn(len(others))]
 		c.commits[i] = vnKey(r).Public()
 		c.pubs[i] = vnKey(r).Public()
-	case 3: // two peers swap their commitments' positions or the mask moves
+	case 3:
 		i := others[r.Intn(len(others))]
 		if _, ok := c.commits[i]; ok {
 			delete(c.commits, i)
 		} else {
 			c.commits[i] = vnKey(r).Public()
 		}
+	case 4:
+		c.pubs[masked[r.Intn(len(masked))]] = vnKey(r).Public()
+	case 5:
+		c.pubs[unmasked[r.Intn(len(unmasked))]] = vnKey(r).Public()
+	case 6:
+		i, j := masked[r.Intn(len(masked))], unmasked[r.Intn(len(unmasked))]
+		c.pubs[i], c.pubs[j] = c.pubs[j], c.pubs[i]
 	}
 	return c
+}
+
+func (w *vnWorld) vary(t *vnTemplate) *vnTemplate {
+	// key-vector-only variants are as likely as all the others together
+	k := w.r.Intn(8)
+	if k >= 4 {
+		k = []int{4, 4, 5, 6}[k-4]
+	}
+	return w.varyKind(t, k)
 }
 
 func (w *vnWorld) badTemplate(t *vnTemplate) *vnTemplate {
@@ -189,14 +238,21 @@ func (w *vnWorld) badTemplate(t *vnTemplate) *vnTemplate {
 	return c
 }
 
-func vnNewWorld(r *rand.Rand, nonces int, distinct int, withBad bool) *vnWorld {
+// seq: the world of a sequential walk: c2 differs from c1 ONLY in a committed co-signer's public key,
+// c3 from c1 in another ingredient; freshly rebuilt contexts may additionally differ in the key of a
+// peer that did not commit (same challenge, different key vector).
+func vnNewWorld(r *rand.Rand, nonces int, distinct int, withBad bool, seq bool) *vnWorld {
 	w := &vnWorld{r: r, classes: map[[32]byte]string{}}
 	for id := 1; id <= nonces; id++ {
 		nc := &vnNonce{id: id, private: vnKey(r)}
 		nc.base = CosiCommitNonce(vnRandReader{r})
-		first := w.template(nc)
+		first := w.template(nc, seq || r.Intn(2) == 0)
 		tpls := []*vnTemplate{first}
 		for len(tpls) < distinct {
+			if seq && len(tpls) == 1 {
+				tpls = append(tpls, w.varyKind(first, 4))
+				continue
+			}
 			tpls = append(tpls, w.vary(tpls[r.Intn(len(tpls))]))
 		}
 		for _, t := range tpls {
@@ -286,7 +342,7 @@ func (rec *vnRecorder) digest() {
 			rec.answers = append(rec.answers, vnAnswer{nonce: x.nc.id, chal: x.c.chal, resp: *x.resp})
 		}
 		rec.events = append(rec.events,
-			vnEvent{x.callSeq, vM{"ev": "Call", "p": x.p, "h": x.h, "n": x.nc.id, "c": x.c.class}},
+			vnEvent{x.callSeq, vM{"ev": "Call", "p": x.p, "h": x.h, "n": x.nc.id, "c": x.c.class, "var": x.c.kind}},
 			vnEvent{x.retSeq, ret})
 	}
 }
@@ -353,7 +409,7 @@ func TestVerifNonce(t *testing.T) {
 
 	// ---- E1: sequential behaviours of the atomic machine generated by TLC
 	for wi, walk := range cases.Walks {
-		w := vnNewWorld(r, 2, 3, true)
+		w := vnNewWorld(r, 2, 3, true, true)
 		tr.Emit(vM{"ev": "Reset", "kind": "walk", "k": wi})
 		rec := &vnRecorder{}
 		copies := map[string]*CosiNonce{}
@@ -381,7 +437,18 @@ func TestVerifNonce(t *testing.T) {
 			if r.Intn(2) == 0 && o.C != "bad" {
 				// same challenge through freshly built argument objects
 				idx := map[string]int{"c1": 0, "c2": 1, "c3": 2}[o.C]
-				c = nc.tpls[idx].build()
+				tp := nc.tpls[idx]
+				if r.Intn(2) == 0 {
+					tp = w.varyKind(tp, 5) // another key of a peer that did not commit: the same challenge
+					if tp.n == nc.tpls[idx].n && len(tp.commits) == len(nc.tpls[idx].commits) && tp.message == nc.tpls[idx].message {
+						c = tp.build()
+						w.classify(c)
+						if c.class != nc.ctxs[idx].class { // fell back to another kind of variation: keep the original
+							tp = nc.tpls[idx]
+						}
+					}
+				}
+				c = tp.build()
 				w.classify(c)
 			}
 			rec.call(1, hid[o.H], nc, copies[o.H], c)
@@ -395,7 +462,7 @@ func TestVerifNonce(t *testing.T) {
 		if r.Intn(4) == 0 {
 			nn = 2 + r.Intn(2)
 		}
-		w := vnNewWorld(r, nn, 1+r.Intn(3), r.Intn(3) == 0)
+		w := vnNewWorld(r, nn, 1+r.Intn(3), r.Intn(3) == 0, false)
 		tr.Emit(vM{"ev": "Reset", "kind": "hist", "k": h})
 		rec := &vnRecorder{}
 		pick := func() (*vnNonce, *vnCtx) {
@@ -404,8 +471,13 @@ func TestVerifNonce(t *testing.T) {
 			if c.class != "bad" && r.Intn(3) == 0 {
 				for i, cc := range nc.ctxs {
 					if cc == c && i < len(nc.tpls) {
-						c = nc.tpls[i].build()
+						tp := nc.tpls[i]
+						if r.Intn(2) == 0 {
+							tp = w.varyKind(tp, 5+r.Intn(2)) // key vector only (same or different challenge)
+						}
+						c = tp.build()
 						w.classify(c)
+						break
 					}
 				}
 			}
